@@ -6,6 +6,7 @@ package c13
 
 import (
 	"bytes"
+	"context"
 	"fmt"
 	"io"
 	"net/http"
@@ -87,7 +88,9 @@ var hostileExprs = []string{"source.users[", "source.users[]", "source.users[-1]
 	"source", "source.", "[0]", "source.users[0][0]", "randInt(source.users[next].id)"}
 
 var hostileTemplates = []string{"{{", "}}", "{{.source.nosuch.x}}", "{{randInt 5 5}}", "{{randString -1}}", "{{index .source 99}}", "{{.}}", "{{template \"x\"}}", "{{range .source}}{{end}}",
-	"{{printf \"%d\" 1}}", "{{randInt \"a\"}}", "{{uuid 1 2}}", "/x?{{.request.r.preprocessor.v}}", "{{define \"a\"}}{{template \"a\"}}{{end}}{{template \"a\"}}"}
+	"{{printf \"%d\" 1}}", "{{randInt \"a\"}}", "{{uuid 1 2}}", "/x?{{.request.r.preprocessor.v}}", "{{define \"a\"}}x{{end}}{{template \"a\"}}"}
+// not in the list: {{define "a"}}{{template "a"}}{{end}}{{template "a"}} - text/template recurses to its documented limit of 100000
+// levels (an error, after growing the goroutine stack to ~512 MB), which a worker under ulimit -v does not always survive.
 
 var hostilePlaceholders = []string{"${env:}", "${", "${}", "${:}", "${env:NO_SUCH_VAR_C13}", "${property:}", "${property:#}", "${property:/no/such/file#k}", "${unknown:x}", "${env:${env:HOME}}", "$${x}"}
 
@@ -508,6 +511,25 @@ func genScenCase(r *vf.Run) func(t *rapid.T) ScenCase {
 		} else {
 			c.Text = sg.RenderHCL(m)
 		}
+		if c.Syntax == "yaml" && strings.HasPrefix(origin, "structured") && rapid.IntRange(0, 7).Draw(t, "null_item") == 0 {
+			// an empty list item (what a file truncated after "- " holds): a line "-" in front of a drawn list item
+			lines := splitLinesKeep(c.Text)
+			var items []int
+			for i, l := range lines {
+				if bytes.HasPrefix(bytes.TrimLeft(l, " "), []byte("- ")) {
+					items = append(items, i)
+				}
+			}
+			if len(items) > 0 {
+				i := items[rapid.IntRange(0, len(items)-1).Draw(t, "null_item_at")]
+				indent := lines[i][:len(lines[i])-len(bytes.TrimLeft(lines[i], " "))]
+				empty := append(append([]byte{}, indent...), '-', '\n')
+				lines = append(lines[:i:i], append([][]byte{empty}, lines[i:]...)...)
+				c.Text = joinLines(lines)
+				c.StructOps = append(c.StructOps, "null_list_item")
+				c.MustReject = "" // the empty item may change what the earlier mutation means (e.g. sit in front of a leading sleep())
+			}
+		}
 		if strings.HasSuffix(origin, "bytes") {
 			c.Text, c.ByteOps = mutateWith(t, c.Text, nil, 2, scenNumbers, true)
 			c.MustReject = "" // the bytes no longer say what the model says
@@ -556,7 +578,10 @@ func checkScen(c ScenCase, o *vf.Obs) error {
 	} else {
 		note("input", fmt.Sprintf("%q ... (%d bytes)", c.Text[:512], len(c.Text)))
 	}
-	err := judge(note, len(c.Text), smallCeiling, func() error { return scenBody(c, o) })
+	err := judge(note, len(c.Text), smallCeiling, func() error {
+		// own goroutine: a deadline for the parsers, and a stack that deep recursion has grown is freed with it
+		return boundedFor(outerDeadline, "scenario provider construction and dry shots", func(context.Context) error { return scenBody(c, o) })
+	})
 	if v, ok := err.(*violation); ok && v.id == "" && strings.HasPrefix(v.msg, "ALLOCATION") && hugeScenNumber.Match(c.Text) {
 		// memory in proportion to a number of the description: a repetition count name(N) or a weight
 		if hugeCountRe.Match(c.Text) {
